@@ -2,19 +2,60 @@
 
 package pkglint
 
-import "bytes"
+import (
+	"bytes"
+	"os"
+)
 
-// C18: the digest pkglint computes for a patch file.
+// C18: the digest pkglint computes for a patch file, and the distinfo checker
+// on one package directory.
 
-// VerifComputePatchSha1Hex loads body the way checkPatchSha1 does (Load with
-// options 0 = convertToLogicalLines in plain mode) and returns
-// computePatchSha1Hex of the lines. Not safe for concurrent use.
-func VerifComputePatchSha1Hex(body string) (sha1Hex string, panicked string) {
+// VerifComputePatchSha1Hex writes body to path (a file in an existing scratch
+// directory, named like a patch), loads it exactly the way checkPatchSha1 does
+// (Load(file, 0)) and returns computePatchSha1Hex of the lines.
+// Not safe for concurrent use.
+func VerifComputePatchSha1Hex(path string, body string) (sha1Hex string, panicked string) {
 	var out bytes.Buffer
 	G.Logger = Logger{out: NewSeparatorWriter(&out), err: NewSeparatorWriter(&out)}
 	panicked = VerifPanic(func() {
-		lines := convertToLogicalLines(NewCurrPathString("patches/patch-aa"), body, false)
+		if err := os.WriteFile(path, []byte(body), 0o644); err != nil {
+			panic(err)
+		}
+		lines := Load(NewCurrPathString(path), 0)
+		if lines == nil {
+			panic("Load returned nil")
+		}
 		sha1Hex = computePatchSha1Hex(lines)
 	})
+	return
+}
+
+// VerifCheckDistinfo runs CheckLinesDistinfo for the package directory pkgDir
+// (pkgsrcRoot/<category>/<package>, with its patches/ already on disk) on a
+// distinfo file with the given content, in default or --autofix mode.
+// It returns everything that was logged and the distinfo file's bytes afterwards.
+func VerifCheckDistinfo(pkgsrcRoot, pkgDir, distinfoText string, autofix bool) (out string, after string, panicked string) {
+	var buf bytes.Buffer
+	G = NewPkglint(&buf, &buf)
+	G.Pkgsrc = NewPkgsrc(NewCurrPathString(pkgsrcRoot))
+	G.Logger.Opts.Autofix = autofix
+	panicked = VerifPanic(func() {
+		file := pkgDir + "/distinfo"
+		if err := os.WriteFile(file, []byte(distinfoText), 0o644); err != nil {
+			panic(err)
+		}
+		pkg := NewPackage(NewCurrPathString(pkgDir))
+		if lines := Load(NewCurrPathString(file), NotEmpty|LogErrors); lines != nil {
+			CheckLinesDistinfo(pkg, lines)
+		}
+		data, err := os.ReadFile(file)
+		if err != nil {
+			panic(err)
+		}
+		after = string(data)
+	})
+	G.Logger.out.Flush()
+	G.Logger.err.Flush()
+	out = buf.String()
 	return
 }
